@@ -1,0 +1,24 @@
+//go:build verif
+
+// Contracts for the deductive verifier in /verif (gocv). Comment-only file. Keys are abstract (bytes: key);
+// an empty END key is +infinity.
+
+package rangetask
+
+// RunOnRange hands out pieces [key, next) that are consecutive and clipped to the requested range:
+// piece:  every piece pushed to the workers starts at the cursor and ends at the end of the loaded region batch, or at the
+//         requested end when that batch reaches or passes it (then it is the last piece);
+// walk:   the cursor of the next round is exactly the end of the piece just pushed, which lies beyond its start;
+// failed: a nil result means no worker recorded an error;
+// whole:  a nil result for a non-empty range means the last piece (the one ending at the requested end) was pushed.
+//@ func (s *Runner) RunOnRange
+//@   prop C14
+//@   bytes: key
+//@   at send(taskCh) assert piece: sent != nil && sent.StartKey == key && sent.EndKey == ite(isLast, endKey, rangeEndKey) && isLast == (rangeEndKey == "" || (endKey != "" && rangeEndKey >= endKey))
+//@   at send(taskCh) assert progress: isLast || sent.StartKey < sent.EndKey
+//@   loop 2 invariant first: true
+//@   loop 2 step walk: key == task.EndKey && task.StartKey == prev(key) && prev(key) < key && !isLast
+//@   loop 3 invariant noerr: forall i int :: 0 <= i && i <= rangeindex ==> workers[i].err == nil
+//@   ensures empty: endKey != "" && startKey >= endKey ==> result == nil
+//@   ensures failed: result == nil && !(endKey != "" && startKey >= endKey) ==> forall i int :: 0 <= i && i < len(workers) ==> workers[i].err == nil
+//@   ensures whole: result == nil && !(endKey != "" && startKey >= endKey) ==> isLast && allPushed
